@@ -1,13 +1,252 @@
 import ProbLogModel.Clark
 import ProbLogModel.Cycles
+import ProbLogProofs.Lemmas.ClarkEval
+import ProbLogProofs.Lemmas.ClarkAD
+import ProbLogProofs.Lemmas.ClarkCount
 /-!
 # C09 — cycle breaking and Clark's completion preserve the ground program's meaning (property theorems only)
+
+Clark half: "The CNF produced by Clark's completion has, for every atom assignment, exactly one model extending it,
+and that model agrees with the acyclic program on every node, with constraints and weights carried over unchanged."
+Helper lemmas: `ProbLogProofs/Lemmas/Clark.lean`, `ClarkDag.lean`, `ClarkEval.lean`, `ClarkAD.lean`, `ClarkCount.lean`.
 -/
 namespace ProbLogProofs.C09
-open ProbLogModel.Formula ProbLogModel.Clark
+open ProbLogModel.Formula ProbLogModel.Clark ProbLogProofs.Lemmas.Clark
 
-/-- placeholder obligation until the Clark lemmas land (replaced below by the real theorems). -/
-theorem C09_clark_node_iff : ∀ (v : Nat → Bool) (i : Nat), satCNF v [] = true := by
-  intro v i; rfl
+/-- non-vacuity witness: atoms 1, 2, `n3 = a1 ∧ ¬a2`, `n4 = n3 ∨ a2` (query), extra atom 5, and the non-trivial
+    AD constraint `{1, 2 | extra 5}`. -/
+def exStore : Store :=
+  { nodes := [.atom (.user 1) (some 0) false none, .atom (.user 2) (some 0) false none,
+              .conj [some 1, some (-2)] none, .disj [some 3, some 2] (some (.pos 7)),
+              .atom (.extra 0) (some 0) true none],
+    weights := [(1, .neutral), (2, .tt), (5, .ff)],
+    names := [(.query, .pos 7, some 4)],
+    ads := [{ group := 0, nodes := [1, 2], extra := some 5 }],
+    atomcount := 3 }
+
+/-- **Local correctness.** The clauses `clarks_completion` emits for node `i` hold under `v` iff `v i` is the
+    AND / OR of its children's values (`Formula.keyVal`), for every node whose children avoid the constant TRUE key
+    (`None` children make the completion raise, so `nodeClauses … = .ok` excludes them). -/
+theorem C09_clark_node_iff (v : Nat → Bool) (i : Nat) (hi : 0 < i) (nd : Node) (cls : List Clause)
+    (hz : ∀ cs nm, (nd = .conj cs nm ∨ nd = .disj cs nm) → some 0 ∉ cs)
+    (h : nodeClauses i nd = .ok cls) :
+    satCNF v cls = true ↔
+      (match nd with
+        | .conj cs _ => v i = cs.all (keyVal v)
+        | .disj cs _ => v i = cs.any (keyVal v)
+        | .atom .. => True) := by
+  have hz' : some 0 ∉ children nd := by
+    cases nd with
+    | atom => simp [children]
+    | conj cs nm => exact hz cs nm (Or.inl rfl)
+    | disj cs nm => exact hz cs nm (Or.inr rfl)
+  rw [nodeClauses_iff v i hi nd cls hz' h]
+  cases nd <;> simp only [nodeOK]
+
+/-- `keyVal` (Formula) and `litVal` (Clark) agree on proper literals. -/
+theorem C09_keyVal_litVal (v : Nat → Bool) (k : Int) (h : k ≠ 0) : keyVal v (some k) = litVal v k :=
+  keyVal_some v k h
+
+example : ∃ cls, nodeClauses 3 (.conj [some 1, some (-2)] none) = .ok cls ∧
+    (∀ v, satCNF v cls = true ↔ v 3 = (v 1 && (!(v 2) && true))) := by
+  refine ⟨_, rfl, fun v => ?_⟩
+  exact C09_clark_node_iff v 3 (by decide) (.conj [some 1, some (-2)] none) _ (by
+    intro cs nm h
+    rcases h with h | h
+    · cases h; decide
+    · cases h) rfl
+
+/-- **Split of the CNF**: node clauses first, then the AD-constraint clauses. -/
+theorem C09_clark_split (S : Store) (cnf : CNF) (h : clark S = .ok cnf) :
+    ∃ nc ac, nodeClausesAll S = .ok nc ∧ adClausesAll S = .ok ac ∧ cnf.clauses = nc ++ ac := by
+  obtain ⟨nc, ac, h1, h2, rfl⟩ := clark_ok S cnf h
+  exact ⟨nc, ac, h1, h2, rfl⟩
+
+/-- The node part of the completion of an acyclic store never raises. -/
+theorem C09_clark_nodes_ok (S : Store) (hac : acyclic S = true) : ∃ nc, nodeClausesAll S = .ok nc :=
+  nodeClausesAll_ok_of_acyclic S hac
+
+/-- **Exactly one model per atom assignment, equal to the acyclic program's bottom-up value on every node.**
+    For an acyclic store, a valuation `v` that gives the atoms the values `α` satisfies the node clauses of the
+    completion iff on every node id `1..n` it is the bottom-up evaluation `dagVals α`. -/
+theorem C09_clark_unique (S : Store) (hac : acyclic S = true) (nc : List Clause)
+    (h : nodeClausesAll S = .ok nc) (α v : Nat → Bool)
+    (hat : ∀ (j : Nat) a g e n, S.nodes[j]? = some (.atom a g e n) → v (j + 1) = α (j + 1)) :
+    satCNF v nc = true ↔
+      ∀ i, 1 ≤ i → i ≤ S.nodes.length → v i = (dagVals α S.nodes).getD (i - 1) false := by
+  rw [nodeClausesAll_iff_nodeOK v S hac nc h]
+  exact nodeOK_all_iff_dagVals α v S.nodes ((acyclic_iff S).mp hac) hat
+
+/-- The same, phrased on the CNF returned by `clark` and with the model's value written as `dagEval`. -/
+theorem C09_clark_unique_cnf (S : Store) (cnf : CNF) (hac : acyclic S = true) (h : clark S = .ok cnf) :
+    ∃ nc ac, cnf.clauses = nc ++ ac ∧ nodeClausesAll S = .ok nc ∧ adClausesAll S = .ok ac ∧
+      ∀ (α v : Nat → Bool),
+        (∀ (j : Nat) a g e n, S.nodes[j]? = some (.atom a g e n) → v (j + 1) = α (j + 1)) →
+        (satCNF v nc = true ↔
+          ∀ i : Nat, 1 ≤ i → i ≤ S.nodes.length → v i = dagEval S α (some (i : Int))) := by
+  obtain ⟨nc, ac, h1, h2, h3⟩ := C09_clark_split S cnf h
+  refine ⟨nc, ac, h3, h1, h2, fun α v hat => ?_⟩
+  rw [C09_clark_unique S hac nc h1 α v hat]
+  have key : ∀ i : Nat, 1 ≤ i → dagEval S α (some (i : Int)) = (dagVals α S.nodes).getD (i - 1) false := by
+    intro i hi
+    have h0 : i ≠ 0 := by omega
+    have h1 : ¬ ((i : Int) < 0) := by omega
+    simp [dagEval, childVal, h0, h1]
+  constructor
+  · intro H i h1 h2; rw [key i h1]; exact H i h1 h2
+  · intro H i h1 h2; rw [← key i h1]; exact H i h1 h2
+
+/-- **Existence**: the bottom-up evaluation itself is a model of the node clauses extending `α`. -/
+theorem C09_clark_exists (S : Store) (hac : acyclic S = true) (nc : List Clause)
+    (h : nodeClausesAll S = .ok nc) (α : Nat → Bool) :
+    satCNF (fun i => (dagVals α S.nodes).getD (i - 1) false) nc = true ∧
+      ∀ (j : Nat) a g e n, S.nodes[j]? = some (.atom a g e n) →
+        (dagVals α S.nodes).getD j false = α (j + 1) := by
+  have hat : ∀ (j : Nat) a g e n, S.nodes[j]? = some (.atom a g e n) →
+      (dagVals α S.nodes).getD j false = α (j + 1) := fun j a g e n hj => dagVals_atom α S.nodes j a g e n hj
+  refine ⟨?_, hat⟩
+  rw [C09_clark_unique S hac nc h α _ (by
+    intro j a g e n hj; simp only [Nat.add_sub_cancel]; exact hat j a g e n hj)]
+  intro i _ _; rfl
+
+/-- **Uniqueness** in the plain form: two models of the node clauses that agree on the atoms agree on every node. -/
+theorem C09_clark_unique_model (S : Store) (hac : acyclic S = true) (nc : List Clause)
+    (h : nodeClausesAll S = .ok nc) (v w : Nat → Bool)
+    (hvw : ∀ (j : Nat) a g e n, S.nodes[j]? = some (.atom a g e n) → v (j + 1) = w (j + 1))
+    (hv : satCNF v nc = true) (hw : satCNF w nc = true) :
+    ∀ i, 1 ≤ i → i ≤ S.nodes.length → v i = w i := by
+  intro i h1 h2
+  have Hv := (C09_clark_unique S hac nc h w v hvw).mp hv i h1 h2
+  have Hw := (C09_clark_unique S hac nc h w w (fun _ _ _ _ _ _ => rfl)).mp hw i h1 h2
+  rw [Hv, Hw]
+
+example : acyclic exStore = true ∧ ∃ nc, nodeClausesAll exStore = .ok nc ∧ nc.length = 6 :=
+  ⟨by decide, _, rfl, rfl⟩
+example : ∃ cnf, clark exStore = .ok cnf ∧ cnf.clauses.length = 10 := ⟨_, rfl, rfl⟩
+-- the unique model for a1 = true, a2 = false gives n3 = n4 = true
+example : dagVals (fun i => i == 1) exStore.nodes = [true, false, true, true, false] := by decide
+
+/-- **Model count**: over the node variables `1..n` (value lists of length `n`), the node clauses of an acyclic store
+    have exactly `2 ^ #atoms` models — `L` enumerates them without repetition. -/
+theorem C09_clark_count (S : Store) (hac : acyclic S = true) (nc : List Clause)
+    (h : nodeClausesAll S = .ok nc) :
+    ∃ L : List (List Bool), L.Nodup ∧ L.length = 2 ^ S.nodes.countP isAtom ∧
+      ∀ l : List Bool, l ∈ L ↔
+        (l.length = S.nodes.length ∧ satCNF (fun i => l.getD (i - 1) false) nc = true) := by
+  refine ⟨models S.nodes, models_nodup _, models_length _, fun l => ?_⟩
+  rw [mem_models, ← eq_dagVals_iff]
+  constructor
+  · intro hl
+    have hlen : l.length = S.nodes.length := by rw [hl, dagVals_length]
+    refine ⟨hlen, ?_⟩
+    show satCNF (valOf l) nc = true
+    rw [C09_clark_unique S hac nc h (valOf l) _ (fun _ _ _ _ _ _ => rfl)]
+    exact (pointwise_iff_eq S.nodes (valOf l) l hlen).mpr hl
+  · rintro ⟨hlen, hs⟩
+    change satCNF (valOf l) nc = true at hs
+    rw [C09_clark_unique S hac nc h (valOf l) _ (fun _ _ _ _ _ _ => rfl)] at hs
+    exact (pointwise_iff_eq S.nodes (valOf l) l hlen).mp hs
+
+example : exStore.nodes.countP isAtom = 3 ∧ (models exStore.nodes).length = 8 := by decide
+
+/-- **AD constraints**: the clauses of a non-trivial constraint (`≥ 2` members, extra node `e`, ids positive) hold
+    iff exactly one of the variables `c.nodes ++ [e]` (counted by position — no distinctness needed) is true. -/
+theorem C09_clark_constraints (v : Nat → Bool) (c : ADC) (e : Nat) (cls : List Clause)
+    (hlen : 1 < c.nodes.length) (hex : c.extra = some e) (hpos : ∀ x ∈ c.nodes ++ [e], 0 < x)
+    (h : adClauses c = .ok cls) :
+    satCNF v cls = true ↔ (c.nodes ++ [e]).countP v = 1 :=
+  adClauses_iff v c e cls hlen hex hpos h
+
+/-- with distinct members this is literally "exactly one variable is true". -/
+theorem C09_clark_constraints_exactly_one (v : Nat → Bool) (c : ADC) (e : Nat) (cls : List Clause)
+    (hlen : 1 < c.nodes.length) (hex : c.extra = some e) (hpos : ∀ x ∈ c.nodes ++ [e], 0 < x)
+    (hnd : (c.nodes ++ [e]).Nodup) (h : adClauses c = .ok cls) :
+    satCNF v cls = true ↔ ∃ x ∈ c.nodes ++ [e], v x = true ∧ ∀ y ∈ c.nodes ++ [e], v y = true → y = x := by
+  rw [C09_clark_constraints v c e cls hlen hex hpos h]
+  generalize c.nodes ++ [e] = l at hnd
+  induction l with
+  | nil => simp
+  | cons a l ih =>
+    have hnd' := List.nodup_cons.mp hnd
+    rw [List.countP_cons]
+    by_cases ha : v a = true
+    · simp only [ha, if_true]
+      constructor
+      · intro hc
+        have h0 : l.countP v = 0 := by omega
+        rw [List.countP_eq_zero] at h0
+        refine ⟨a, List.mem_cons_self, ha, ?_⟩
+        intro y hy hvy
+        rcases List.mem_cons.mp hy with rfl | hy
+        · rfl
+        · exact absurd hvy (h0 y hy)
+      · rintro ⟨x, hx, hvx, huniq⟩
+        have hxa : a = x := huniq a List.mem_cons_self ha
+        subst hxa
+        have : l.countP v = 0 := by
+          rw [List.countP_eq_zero]
+          intro y hy hvy
+          have := huniq y (List.mem_cons_of_mem _ hy) hvy
+          subst this
+          exact hnd'.1 hy
+        omega
+    · simp only [ha, if_false, Nat.add_zero, Bool.false_eq_true]
+      rw [ih hnd'.2]
+      constructor
+      · rintro ⟨x, hx, hvx, huniq⟩
+        refine ⟨x, List.mem_cons_of_mem _ hx, hvx, ?_⟩
+        intro y hy hvy
+        rcases List.mem_cons.mp hy with rfl | hy
+        · exact absurd hvy ha
+        · exact huniq y hy hvy
+      · rintro ⟨x, hx, hvx, huniq⟩
+        rcases List.mem_cons.mp hx with rfl | hx
+        · exact absurd hvx ha
+        · exact ⟨x, hx, hvx, fun y hy hvy => huniq y (List.mem_cons_of_mem _ hy) hvy⟩
+
+/-- The AD part of the CNF holds iff every constraint's own clauses hold. -/
+theorem C09_clark_constraints_all (v : Nat → Bool) (S : Store) (ac : List Clause)
+    (h : adClausesAll S = .ok ac) :
+    satCNF v ac = true ↔ ∀ c ∈ S.ads, ∃ cls, adClauses c = .ok cls ∧ satCNF v cls = true :=
+  adClausesAll_sat v S ac h
+
+example : ∃ cls, adClauses ⟨0, [1, 2], some 5⟩ = .ok cls ∧ cls.length = 4 ∧
+    (∀ v, satCNF v cls = true ↔ [1, 2, 5].countP v = 1) := by
+  refine ⟨_, rfl, rfl, fun v => ?_⟩
+  exact C09_clark_constraints v ⟨0, [1, 2], some 5⟩ 5 _ (by decide) rfl (by decide) rfl
+
+/-- **All models of the whole CNF**: for an acyclic store, `v` satisfies the completion iff every node variable has
+    the acyclic program's value under `v`'s own atom values and every AD constraint's clauses hold
+    (see `C09_clark_constraints` for what those say). -/
+theorem C09_clark_models (S : Store) (cnf : CNF) (hac : acyclic S = true) (h : clark S = .ok cnf)
+    (v : Nat → Bool) :
+    satCNF v cnf.clauses = true ↔
+      (∀ i : Nat, 1 ≤ i → i ≤ S.nodes.length → v i = dagEval S v (some (i : Int))) ∧
+      (∀ c ∈ S.ads, ∃ cls, adClauses c = .ok cls ∧ satCNF v cls = true) := by
+  obtain ⟨nc, ac, hcl, hnc, hadc, H⟩ := C09_clark_unique_cnf S cnf hac h
+  rw [hcl, satCNF_append, Bool.and_eq_true, H v v (fun _ _ _ _ _ _ => rfl), adClausesAll_sat v S ac hadc]
+
+example : ∃ cnf, clark exStore = .ok cnf ∧
+    satCNF (fun i => [false, true, false, true, true, false].getD i false) cnf.clauses = true :=
+  ⟨_, rfl, by decide⟩
+
+/-- Boundary of `C09_clark_node_iff`: the hypothesis "no constant-TRUE child" is needed. A store built with
+    `auto_compact=False` may hold `conj(0, 1)`; the completion then emits the literal `0` (clauses
+    `[2,0,-1] [-2,0] [-2,1]`; real code: same, and `to_dimacs` prints `-2 0 0`), and the clauses no longer say
+    `v 2 = (TRUE ∧ v 1)`. Stores produced by the engine / cycle breaking (auto_compact on) never contain such children
+    (`acyclic` excludes them). -/
+theorem C09_clark_node_iff_needs_no_true_child :
+    ∃ (v : Nat → Bool) (cls : List Clause), nodeClauses 2 (.conj [some 0, some 1] none) = .ok cls ∧
+      v 2 = [some 0, some 1].all (keyVal v) ∧ satCNF v cls = false :=
+  ⟨fun i => i != 0, _, rfl, by decide, by decide⟩
+
+/-- **Carry-over**: weights, names, constraints and the variable count are copied unchanged. -/
+theorem C09_clark_carry (S : Store) (cnf : CNF) (h : clark S = .ok cnf) :
+    cnf.weights = S.weights ∧ cnf.names = S.names ∧ cnf.ads = S.ads ∧ cnf.atomcount = S.nodes.length := by
+  obtain ⟨nc, ac, _, _, rfl⟩ := clark_ok S cnf h
+  exact ⟨rfl, rfl, rfl, rfl⟩
+
+example : ∃ cnf, clark exStore = .ok cnf ∧ cnf.weights = [(1, .neutral), (2, .tt), (5, .ff)] ∧
+    cnf.atomcount = 5 := ⟨_, rfl, rfl, rfl⟩
 
 end ProbLogProofs.C09
